@@ -127,7 +127,7 @@ type Sim struct {
 	round   int
 
 	sawTrunc, sawRelay, sawDup, sawReorder, sawCompactAfterDelete bool
-	sawSkewExpiry, sawRecover, sawDeadAndLiveHolder bool
+	sawSkewExpiry, sawRecover, sawDeadAndLiveHolder               bool
 	f3Excluded                                                    int
 }
 
